@@ -157,6 +157,24 @@ theorem M.bind_pure {α} (m : M α) : M.bind m M.pure = m := by
   cases h : m c with
   | mk r c' => cases r <;> simp
 
+/-- a thrown error skips the continuation -/
+theorem M.throw_bind {α β} (k : ErrKind) (f : α → M β) : M.bind (M.throw k) f = M.throw k := by
+  funext c; simp [M.bind, M.throw]
+
+/-! ## spines: `v.spine = (elements, final tail)`; `v` is a proper list iff `v.spine.2 = .nil` -/
+
+theorem spine_cons (i : Nat) (a d : Val) :
+    (Val.cons i a d).spine = (a :: d.spine.1, d.spine.2) := rfl
+
+theorem spine_atom {v : Val} (h : v.isCons = false) : v.spine = ([], v) := by
+  cases v <;> first | rfl | simp [Val.isCons] at h
+
+/-- the final tail of a spine is never a cons -/
+theorem spine_snd_not_cons (v : Val) : v.spine.2.isCons = false := by
+  induction v with
+  | cons i a d _ ih => simpa [spine_cons] using ih
+  | _ => rfl
+
 /-! ## `numOf` -/
 
 theorem numOf_some {v : Val} {n : Num} (h : v.toNum? = some n) (c : Ctx) :
